@@ -400,32 +400,7 @@ pub fn batch_open(ctx: &mut Ctx, rng: &mut Rng, id: &str, c: &Case, qs: &QuerySe
             ("used".into(), Expect::Nat(xis.len())),
         ]),
     );
-    // witness scalars per group, from the trapdoor
-    let mut ws = vec![];
-    let mut k = 0;
-    for (_, pt, labels) in crate::generic::group(qs) {
-        let sub: Vec<usize> = labels.iter().filter_map(|l| c.polys.iter().position(|p| p.label() == l)).collect();
-        let subcase_polys: Vec<LP> = sub.iter().map(|&i| c.polys[i].clone()).collect();
-        let subcase_rands: Vec<Rand> = sub.iter().map(|&i| c.rands[i].clone()).collect();
-        let need: usize = subcase_polys.iter().map(|p| 1 + p.degree_bound().is_some() as usize).sum();
-        let tmp = Case {
-            trap: c.trap.clone(),
-            supported: c.supported,
-            shb: c.shb,
-            tbounds: c.tbounds.clone(),
-            ck: c.ck.clone(),
-            vk: c.vk.clone(),
-            polys: subcase_polys,
-            kinds: vec![],
-            comms: vec![],
-            rands: subcase_rands,
-        };
-        if k + need > xis.len() {
-            break;
-        }
-        ws.push(witness_scalar(&tmp, &pt, &xis[k..k + need]));
-        k += need;
-    }
+    let ws = group_witness_scalars(c, qs, &xis);
     Ok((proofs, ws))
 }
 
@@ -464,4 +439,60 @@ pub fn batch_check_scalar(
         .arg("rs", wire::fes(&rs));
     ctx.ses.ask(id, req, out);
     o3
+}
+
+/// witness scalars of a batch opening, one per point label, computed from the trapdoor
+pub fn group_witness_scalars(c: &Case, qs: &QuerySet<Fr>, xis: &[Fr]) -> Vec<Fr> {
+    let mut ws = vec![];
+    let mut k = 0;
+    for (_, pt, labels) in crate::generic::group(qs) {
+        let sub: Vec<usize> = labels.iter().filter_map(|l| c.polys.iter().position(|p| p.label() == l)).collect();
+        let subcase_polys: Vec<LP> = sub.iter().map(|&i| c.polys[i].clone()).collect();
+        let subcase_rands: Vec<Rand> = sub.iter().map(|&i| c.rands[i].clone()).collect();
+        let need: usize = subcase_polys.iter().map(|p| 1 + p.degree_bound().is_some() as usize).sum();
+        let tmp = Case {
+            trap: c.trap.clone(),
+            supported: c.supported,
+            shb: c.shb,
+            tbounds: c.tbounds.clone(),
+            ck: c.ck.clone(),
+            vk: c.vk.clone(),
+            polys: subcase_polys,
+            kinds: vec![],
+            comms: vec![],
+            rands: subcase_rands,
+        };
+        if k + need > xis.len() {
+            break;
+        }
+        ws.push(witness_scalar(&tmp, &pt, &xis[k..k + need]));
+        k += need;
+    }
+    ws
+}
+
+/// the case whose "polynomials" are the given linear combinations of the case's polynomials
+/// (as `Marlin::open_combinations` forms them): used to compute witness scalars of combination proofs
+pub fn lc_case(c: &Case, lcs: &[ark_poly_commit::LinearCombination<Fr>]) -> Option<Case> {
+    use ark_poly_commit::{LCTerm, PCCommitmentState};
+    let mut polys = vec![];
+    let mut rands = vec![];
+    for lc in lcs {
+        let mut poly = UniPoly::from_coefficients_vec(vec![]);
+        let mut rand = Rand::empty();
+        let mut bound = None;
+        for (coeff, t) in lc.iter() {
+            if let LCTerm::PolyLabel(l) = t {
+                let i = c.polys.iter().position(|p| p.label() == l)?;
+                if lc.len() == 1 && c.polys[i].degree_bound().is_some() {
+                    bound = c.polys[i].degree_bound();
+                }
+                poly += (*coeff, c.polys[i].polynomial());
+                rand += (*coeff, &c.rands[i]);
+            }
+        }
+        polys.push(LabeledPolynomial::new(lc.label().clone(), poly, bound, None));
+        rands.push(rand);
+    }
+    Some(Case { trap: c.trap.clone(), supported: c.supported, shb: c.shb, tbounds: c.tbounds.clone(), ck: c.ck.clone(), vk: c.vk.clone(), polys, kinds: vec![], comms: vec![], rands })
 }
